@@ -541,6 +541,12 @@ func c11Mod(r *core.Result, fam string, bits int, sess []byte, rejected func(str
 
 // aliceTranscript re-implements ProveRangeAlice with a chosen alpha (the only way to put s1 just above the bound).
 func aliceTranscript(pk *paillier.PublicKey, c, NTilde, h1, h2, m, r, alpha *big.Int) *mta.RangeProofAlice {
+	return aliceTranscriptForced(pk, c, NTilde, h1, h2, m, r, alpha, nil)
+}
+
+// aliceTranscriptForced: a prover that fixes some of its first-move values (z, u, w) to values of its choosing before the
+// challenge is derived, and answers honestly after that: every equation that does not involve the forced value holds.
+func aliceTranscriptForced(pk *paillier.PublicKey, c, NTilde, h1, h2, m, r, alpha *big.Int, force map[string]*big.Int) *mta.RangeProofAlice {
 	q := secQ
 	q3 := new(big.Int).Exp(q, big.NewInt(3), nil)
 	beta := common.GetRandomPositiveRelativelyPrimeInt(rand.Reader, pk.N)
@@ -553,6 +559,15 @@ func aliceTranscript(pk *paillier.PublicKey, c, NTilde, h1, h2, m, r, alpha *big
 	u.Mul(u, new(big.Int).Exp(beta, pk.N, N2)).Mod(u, N2)
 	w := new(big.Int).Exp(h1, alpha, NTilde)
 	w.Mul(w, new(big.Int).Exp(h2, gamma, NTilde)).Mod(w, NTilde)
+	if v, ok := force["z"]; ok {
+		z = v
+	}
+	if v, ok := force["u"]; ok {
+		u = v
+	}
+	if v, ok := force["w"]; ok {
+		w = v
+	}
 	e := common.SHA512_256i(append(pk.AsInts(), c, z, u, w)...)
 	e.Mod(e, q)
 	s := new(big.Int).Exp(r, e, pk.N)
